@@ -212,7 +212,8 @@ func runC16App(t *testing.T, c simrt.Chooser, o Opts, p picker, out *Out) *Out {
 		}
 		got[fmt.Sprintf("%s:%d", ip, port)]++
 	}
-	for a, n := range want {
+	for _, a := range sortedKeys(want) {
+		n := want[a]
 		if got[a] != n {
 			out.violate("C16.missed", "socks/"+s.Mode, "argv %v: proxy %s detected before completion but printed %d times (want %d)", w.Argv, a, got[a], n)
 			break
